@@ -149,6 +149,19 @@ func (c *ctx) limits() {
 		c.limitCase(fmt.Sprintf("total/%d/three-level-opaque-tail", total), q, nil, nil)
 	}
 
+	// --- time locks at the far end of the 64-bit range of Unix seconds (the wire carries any int64)
+	for _, T := range []int64{1 << 40, 1<<62 + 5, 9223371974719179007, 9223371974719179008, 1<<63 - 2, 1<<63 - 1} {
+		pa := types.PolicyAfter(time.Unix(T, 0))
+		e := env{lockH, time.Unix(lockTs+1, 0), c.h0}
+		fam := "limit"
+		if T >= 9223371974719179008 {
+			fam = "limit/unix-seconds-beyond-the-range-of-time.Time" // MaxInt64 - 62135596800 (seconds between year 1 and 1970)
+		}
+		c.checkCase(fam, fmt.Sprintf("after/unix-seconds-%d", T), "s0p0", "h+0,t+1s", pa, e, nil, nil)
+		c.checkCase(fam, fmt.Sprintf("after/unix-seconds-%d/in-threshold-with-pk", T), "s1p0", "h+0,t+1s", types.PolicyThreshold(2, []types.SpendPolicy{pa, types.PolicyPublicKey(m.pub[1])}), e, []types.Signature{m.sign(1, c.h0)}, nil)
+		c.b.Count("limit_cases", 2)
+	}
+
 	// --- nesting: chains
 	for _, d := range []int{1, 2, 31, 32, 33, 34, 100, 1000, 1023, 1024, 1025, 1026, 2000, 5000, 20000, 200000} {
 		p := chain(d, free)
